@@ -280,7 +280,9 @@ func refQuery(model map[string]interface{}, q idxQuery) []string {
 // idxTasksEnqueued counts successful mutations = index tasks enqueued (process wide).
 var idxTasksEnqueued int64
 
-var idxKeys = []string{"a", "ab", "abc", "b", "ba", emptyKeyMarker, "a:b", "z", "aa", "Ab", "a b", "ab~", "abcd", "k\x01", "é", emptyKeyMarker, "a<FF>", "a<FF><FF>", "<FF>", "ab<FF>c", "a<FF>b"}
+var idxKeys = []string{"a", "ab", "abc", "b", "ba", emptyKeyMarker, "a:b", "z", "aa", "Ab", "a b", "ab~", "abcd", "k\x01", "é", emptyKeyMarker, "a<FF>", "a<FF><FF>", "<FF>", "ab<FF>c", "a<FF>b",
+	// an index key is any byte string: this one holds the byte that separates key and id in the index
+	"zz<00>q", "zz<00>q"}
 
 type idxMut struct {
 	Op  string `json:"op"`
@@ -450,7 +452,7 @@ func (e *idxEnv) mutateTxn(r *rand.Rand, ids []string, n int) (muts []idxMut, be
 
 // idxBattery returns the query battery for the current model.
 func idxBattery(r *rand.Rand, n int) []idxQuery {
-	prefixes := []string{"", "a", "ab", "abc", "abcd", "abcde", "b", "q", "a:", "a\x00", "ab\x00id", ":", "A", "k\x01", "é", "a ", "a\xff", "\xff", "a\xff\xff", "ab\xff"}
+	prefixes := []string{"", "a", "ab", "abc", "abcd", "abcde", "b", "q", "a:", "a\x00", "ab\x00id", ":", "A", "k\x01", "é", "a ", "a\xff", "\xff", "a\xff\xff", "ab\xff", "zz", "zz\x00", "zz\x00q", "zz\x00q\x00"}
 	var qs []idxQuery
 	for _, idx := range []string{"k", "x2"} {
 		for _, p := range prefixes {
